@@ -30,6 +30,12 @@ func opCfgDel(kind, name string) *Op   { return &Op{Kind: "cfgdel", Cfg: &CfgArg
 func opVips() *Op {
 	return &Op{Kind: "sysmeta", Key: structs.SystemMetadataVirtualIPsEnabled, Val: "true"}
 }
+func opTgwVips() *Op {
+	return &Op{Kind: "sysmeta", Key: structs.SystemMetadataTermGatewayVirtualIPsEnabled, Val: "true"}
+}
+func termGw(id string) *SvcArg {
+	return &SvcArg{ID: id, Name: "term-gw", Port: 8443, Kind: "terminating-gateway"}
+}
 func typical(id, name string, native bool) *SvcArg {
 	return &SvcArg{ID: id, Name: name, Port: 8000, Kind: "typical", Native: native}
 }
@@ -100,9 +106,35 @@ func corpus() []scenario {
 	}
 }
 
+
+// silentCorpus: monitor-only scenarios (terminating-gateway virtual IPs are not in the Lean model; nothing is expected
+// on the unchanged tree): a service a terminating gateway links keeps its address when its last ordinary instance
+// goes / when a resolver of it is deleted, and the next allocation gets another address (the gateway guard of
+// freeServiceVirtualIP).
+func silentCorpus() []scenario {
+	const tg, sr = structs.TerminatingGateway, structs.ServiceResolver
+	return []scenario{
+		{"", []*Op{opVips(), opTgwVips(), opReg("", "n1", idN1, typical("db1", "db", false)), opCfg(tg, "term-gw", "db"), opReg("", "n1", idN1, termGw("term-gw")),
+			opDereg("", "n1", "db1", ""), opReg("", "n1", idN1, typical("api1", "api", true))}},
+		{"", []*Op{opVips(), opTgwVips(), opCfg(tg, "term-gw", "db"), opReg("", "n1", idN1, termGw("term-gw")), opCfg(sr, "db", ""), opCfgDel(sr, "db"),
+			opReg("", "n1", idN1, typical("api1", "api", true))}},
+		{"", []*Op{opVips(), opTgwVips(), opReg("", "n1", idN1, sidecar("db-sidecar-proxy", "db")), opReg("", "n1", idN1, typical("db1", "db", false)), opCfg(tg, "term-gw", "db+web"),
+			opReg("", "n2", idN2, termGw("term-gw")), opDereg("", "n1", "db1", ""), opReg("", "n2", idN2, sidecar("api-sidecar-proxy", "api")), opCfg(tg, "term-gw", "web")}},
+	}
+}
+
 func runCorpus(run *hx.Run) {
-	for i, sc := range corpus() {
-		h := NewHistory(run)
+	all := corpus()
+	nLoud := len(all)
+	all = append(all, silentCorpus()...)
+	for i, sc := range all {
+		var h *History
+		if i < nLoud {
+			h = NewHistory(run)
+		} else {
+			h = NewSilentHistory(run)
+			run.Tag("corpus:monitor-only-scenario")
+		}
 		idx := uint64(10)
 		for _, op := range sc.ops {
 			op.Idx = idx
